@@ -1,6 +1,7 @@
 package scen
 
 import (
+	"net"
 	"bytes"
 	"errors"
 	"fmt"
@@ -150,7 +151,13 @@ func runWire(e *Env) {
 		cl.Supported["COMPRESSION"] = adv
 	}
 	cfg := BaseConfig(cl, "10.0.0.1")
-	gocql.VerifDisableControlConn(cfg, true)
+	// some sessions keep their control connection: the node can then push events, which
+	// are frames like any other (stream -1, every protocol version)
+	ctrl := tp.Chance(1, 4)
+	e.Note("control", ctrl)
+	if !ctrl {
+		gocql.VerifDisableControlConn(cfg, true)
+	}
 	cfg.ProtoVersion = proto
 	cfg.NumConns = 1
 	cfg.Timeout = 2 * time.Second
@@ -377,6 +384,32 @@ func runWire(e *Env) {
 	}
 	k.TimeWeight = 1
 	k.PreStep = append(k.PreStep, cl.Process)
+	if ctrl {
+		pushed := 0
+		k.Sources = append(k.Sources, func() []kernel.Action {
+			if pushed >= 4 {
+				return nil
+			}
+			return []kernel.Action{{Key: "event", Rank: 1, Weight: 2, Do: func() {
+				pushed++
+				typ, ch := "STATUS_CHANGE", "UP"
+				if tp.Chance(1, 2) {
+					typ, ch = "TOPOLOGY_CHANGE", "NEW_NODE"
+				}
+				k.Fault("event.pushed")
+				cl.PushEvent(&cqlspec.Response{EventType: typ, EventChange: ch, EventIP: net.ParseIP("10.0.0.1").To4(), EventPort: 9042})
+			}}}
+		})
+	}
+	// everything the node sends in this scenario is well-formed and nothing fails: the
+	// driver has no reason to give up a connection before the session is closed
+	k.PreStep = append(k.PreStep, func() {
+		for _, c := range cl.Net.Conns() {
+			if c.ClientClosed() && k.Violation() == nil {
+				k.Violate("C04", "C04/connection-given-up-on-well-formed-traffic", "the driver closed connection %s although the node sent only well-formed frames (events included) and nothing failed", c.Name)
+			}
+		}
+	})
 	k.Loop(nil)
 	k.BeginSettle()
 	if !k.SettleUntil(30*time.Second, 10*time.Millisecond, cl.Process, k.TasksDone) && k.Violation() == nil {
